@@ -19,7 +19,10 @@ def run_one(sid):
         shutil.rmtree(tmp)
         return res
     env = dict(os.environ, VERIF_REPO=repo, VERIF_EVID=os.path.join(tmp, "evid"))
-    for p in PROPS:
+    props = PROPS
+    if os.environ.get("EVAL_PROPS") == "target":
+        props = [json.load(open(os.path.join(d, "meta.json"))).get("property", sid[:3])]
+    for p in props:
         for attempt in range(2):
             c = subprocess.run([os.path.join(V, "check"), p, "quick"], cwd=V, env=env, capture_output=True, text=True)
             vio = [l for l in c.stdout.splitlines() if l.startswith("VIOLATION")]
@@ -46,10 +49,13 @@ def run_one(sid):
 def main():
     ids = sys.argv[1:] or sorted(x for x in os.listdir(os.path.join(V, "seeded")) if os.path.isdir(os.path.join(V, "seeded", x)))
     out_path = os.path.join(V, "seeded", "RESULTS.json")
+    if os.environ.get("EVAL_PROPS") == "target":
+        out_path = os.path.join(V, "seeded", "RESULTS_target.json")   # target checks only, re-run at the final state
     results = json.load(open(out_path)) if os.path.exists(out_path) else {}
-    with concurrent.futures.ThreadPoolExecutor(max_workers=4) as ex:
+    with concurrent.futures.ThreadPoolExecutor(max_workers=int(os.environ.get("EVAL_WORKERS", "4"))) as ex:
         for r in ex.map(run_one, ids):
             results[r["id"]] = r
+            json.dump(results, open(out_path, "w"), indent=1, sort_keys=True)
             target = r["id"][:3]
             hit = [p for p, c in r["checks"].items() if c.get("violation")]
             conc = [p for p, c in r["checks"].items() if c.get("violation") and c.get("concrete")]
